@@ -1159,6 +1159,11 @@ func (x *Exec) guardCheck(st *State, a FieldPtr, write bool, nv Val) {
 		}
 		old := st.loadField(nil, a.Ref, a.S, a.SN, a.Idx)
 		env := &specEnv{x: x, st: st, vars: map[string]Val{"old": old, "new": nv}, where: "transition " + key}
+		if obj := x.pkg.Pkg.Scope().Lookup(a.SN); obj != nil {
+			self := a.Ref
+			self.Typ = types.NewPointer(obj.Type())
+			env.vars["self"] = self // the object whose field is stored to
+		}
 		cl := &Clause{File: tr.File, Line: tr.Line, Src: tr.Src}
 		goal := x.evalBool(env, tr.Expr, cl)
 		st.declareOnce("is_fresh", "(declare-fun is_fresh (Ref) Int)")
@@ -1781,7 +1786,7 @@ func (x *Exec) havocLoop(st *State, fr *Frame, head *ssa.BasicBlock) {
 			if call, ok := in.(*ssa.Call); ok {
 				if _, anns := x.siteAnns(st, fr, call.Call.Pos()); len(anns) > 0 {
 					for _, a := range anns {
-						if a.Kind == "set" {
+						if a.Kind == "set" || a.Kind == "onpanic" {
 							ms.ghosts[a.Ghost] = true
 						}
 					}
